@@ -59,6 +59,9 @@ type Obj struct {
 	Pool []string                  // human readable, for the Reset event
 	Hdr  Ev                        // configuration of the object the specification needs (Reset event)
 	Raw  func() interface{}        // the real object (an argument of PutAllFrom on another object)
+	// Enum opens a real enumerator of a kind the type offers ("k" keys, "v" values,
+	// "e" entries) WITHOUT stepping it (stepped enumerations)
+	Enum map[string]func() *En
 	// set by a call, taken over by the session:
 	LastArr *Arr // the slice the call returned / was given
 	Forked  *Obj // the object that stays alive beside this one (RoundTrip with Hold: the map that was written)
@@ -72,6 +75,34 @@ type Arr struct {
 	Read  func() []int       // its content now (projected)
 	Write func(i int, x int) // element i := key of rank x / value x
 }
+
+// En is one real enumerator in the harness's hands, stepped one call at a time.
+type En struct {
+	Kind string
+	More func() bool // HasMoreElements()
+	Next func() Ev   // the next element, projected: {"x": key rank / value} or {"p": [key rank, value]}
+	Got  int         // elements taken so far
+}
+
+// EnumKinds: the kinds of enumerators the type offers, in a fixed order.
+func (o *Obj) EnumKinds() []string {
+	var out []string
+	for _, k := range []string{"k", "v", "e"} {
+		if o.Enum[k] != nil {
+			out = append(out, k)
+		}
+	}
+	return out
+}
+
+// PureRead: the calls that are not modifications in any sense -- lookups,
+// membership, renderings, whole enumerations, the wire form.  Enumerators opened
+// before such a call go on being stepped after it.  (Sort rebuilds the table and
+// the wire round trip replaces the object: enumerators are dropped there, as at
+// every modifying call, New excepted.)
+var PureRead = map[string]bool{"Get": true, "ContainsKey": true, "Contains": true, "HasKey": true, "ContainsValue": true,
+	"IsEmpty": true, "ToString": true, "ToFormatString": true, "Keys": true, "Values": true, "Entries": true,
+	"KeyArray": true, "ValueArray": true, "ToBytes": true}
 
 func (o *Obj) Has(name string) bool {
 	if name == "Swap" {
@@ -128,6 +159,105 @@ type Session struct {
 	Arrs   []*Arr          // slices in the harness's hands
 	LastHK [][]int         // last full enumeration of every held object
 	LastHV [][]int
+	// stepped enumerations (PlainMap.tla ens): the enumerators opened on the focus
+	// since the last call that was not a pure read
+	Ens   []*En
+	Steps int // counter that varies kind and cut point of the enumerations around the calls of a graph replay
+}
+
+const maxEns = 3 // open enumerators at a time
+
+// EnumOpen opens one more enumerator of the kind on the focus.
+func (s *Session) EnumOpen(kind string) bool {
+	if s.Dead || s.O.Enum[kind] == nil || len(s.Ens) >= maxEns {
+		return false
+	}
+	var en *En
+	var size int
+	msg, to := Guarded(func() { en = s.O.Enum[kind](); size = s.O.Size() })
+	if msg != "" || to {
+		s.fail("EnumOpen:"+kind, msg, to)
+		return false
+	}
+	s.Ens = append(s.Ens, en)
+	s.size = size
+	s.T.Emit(Ev{"ev": "EnumOpen", "kind": kind, "i": len(s.Ens), "size": size})
+	s.Events++
+	return true
+}
+
+// EnumMore asks enumerator i (1-based) whether it has more elements.
+func (s *Session) EnumMore(i int) (more bool) {
+	if s.Dead || i < 1 || i > len(s.Ens) {
+		return false
+	}
+	var size int
+	msg, to := Guarded(func() { more = s.Ens[i-1].More(); size = s.O.Size() })
+	if msg != "" || to {
+		s.fail(fmt.Sprintf("EnumMore:%d", i), msg, to)
+		return false
+	}
+	s.T.Emit(Ev{"ev": "EnumMore", "i": i, "b": more, "size": size})
+	s.Events++
+	return more
+}
+
+// EnumNext takes the next element of enumerator i.  It is only asked for while the
+// enumerator has yielded fewer elements than Size() (nothing was modified since it
+// was opened): the harness never steps an enumerator beyond its end.
+func (s *Session) EnumNext(i int) bool {
+	if s.Dead || i < 1 || i > len(s.Ens) || s.Ens[i-1].Got >= s.size {
+		return false
+	}
+	en := s.Ens[i-1]
+	var res Ev
+	var size int
+	msg, to := Guarded(func() { res = en.Next(); size = s.O.Size() })
+	if msg != "" || to {
+		s.fail(fmt.Sprintf("EnumNext:%d", i), msg, to)
+		return false
+	}
+	en.Got++
+	ev := Ev{"ev": "EnumNext", "i": i, "size": size}
+	for k, v := range res {
+		ev[k] = v
+	}
+	s.T.Emit(ev)
+	s.Events++
+	return true
+}
+
+// EnumDrop: the harness lets go of all its enumerators (an event: the model forgets
+// them too, the next one opened is number 1 again).
+func (s *Session) EnumDrop() {
+	if s.Dead || len(s.Ens) == 0 {
+		return
+	}
+	s.Ens = nil
+	s.T.Emit(Ev{"ev": "EnumDrop", "size": s.size})
+	s.Events++
+}
+
+// EnumStep: one step of enumerator i the way a caller loops -- "more?" (mostly),
+// then the element.  Reports whether the enumerator may still have something.
+func (s *Session) EnumStep(i int, ask bool) bool {
+	if i < 1 || i > len(s.Ens) || s.Dead {
+		return false
+	}
+	if s.Ens[i-1].Got >= s.size { // at its end: it must say so (and go on saying so)
+		s.EnumMore(i)
+		return false
+	}
+	if ask && !s.EnumMore(i) {
+		return false // it claims to be finished early: recorded, the specification disagrees
+	}
+	return s.EnumNext(i)
+}
+
+// EnumDrain steps enumerator i to its end.
+func (s *Session) EnumDrain(i int) {
+	for n := 0; n <= s.size+1 && s.EnumStep(i, n%3 != 1); n++ {
+	}
 }
 
 const maxHeld = 3 // held objects per history
@@ -207,6 +337,35 @@ func (s *Session) Do(op Op) Ev {
 	if hung[hkey] >= hungLimit {
 		return nil
 	}
+	if !PureRead[op.Name] {
+		s.Ens = nil // the enumerators opened so far are not stepped across this call
+	}
+	// graph replay: every read-only call is made INSIDE a stepped enumeration -- an
+	// enumerator (kinds in turn) is opened and stepped up to a cut point (all cut
+	// points in turn) before the call and stepped to its end after it; now and then a
+	// second enumerator runs along
+	around := 0
+	if s.Full && PureRead[op.Name] && len(s.Ens) == 0 {
+		if kinds := s.O.EnumKinds(); len(kinds) > 0 {
+			s.Steps++
+			if s.EnumOpen(kinds[s.Steps%len(kinds)]) {
+				around = 1
+				if s.Steps%7 == 0 && s.EnumOpen(kinds[(s.Steps/7)%len(kinds)]) {
+					around = 2
+				}
+				cut := (s.Steps / len(kinds)) % (s.size + 1)
+				for n := 0; n < cut; n++ {
+					s.EnumStep(1, n%2 == 0)
+					if around == 2 && n%2 == 1 {
+						s.EnumStep(2, true)
+					}
+				}
+			}
+		}
+		if s.Dead {
+			return nil
+		}
+	}
 	ev := Ev{"ev": op.Name}
 	switch OpArgs[op.Name] {
 	case "kv":
@@ -259,6 +418,12 @@ func (s *Session) Do(op Op) Ev {
 		s.Arrs = append(s.Arrs, obj.LastArr)
 		s.T.Emit(held)
 		s.Events++
+	}
+	for i := 1; i <= around; i++ {
+		s.EnumDrain(i)
+	}
+	if around > 0 {
+		s.EnumDrop()
 	}
 	if s.Full {
 		s.emitProj(pk, pv, size)
